@@ -3,10 +3,14 @@ proof: Coq theorems about the executable region model of ImproveOrthogonalRoutes
 (Avoid/NudgeModel.v: generator of VPSC variables/constraints, the do/while `satisfied` loop with the unsatisfied-range
 gap rewriting, write-back), Avoid/Nudge.v, Properties/C10.v; the VPSC solver is a Section parameter with C01's statement
 as its hypothesis.
-tie: C through hook H1 (guarded dump of every nudging region in orthogonal.cpp): the extracted generator must
-reproduce the real (vs, cs, gapcs, potential constraints) exactly, the extracted loop steps must reproduce the real
-satisfied / unsatisfied-range / sepDist / rewritten-gap trace on the real solver results, and with the VPSC model of C01
-as solver the final positions to 1e-9;
+tie: C through hooks H1 + H1b (guarded dump of every nudging region and of every pass's whole segment list in
+orthogonal.cpp): the extracted generator must reproduce the real (vs, cs, gapcs, potential constraints) exactly, the
+extracted loop steps must reproduce the real satisfied / unsatisfied-range / sepDist / rewritten-gap trace on the real solver
+results, with the VPSC model of C01 as solver the final positions to 1e-9; the extracted relations overlaps_with /
+should_align_with / can_align_with (Avoid/NudgeRelModel.v, proved symmetric in Avoid/NudgeRel.v) must reproduce every
+dumped REL record exactly, the extracted region collection seg_groups must reproduce the regions the code formed, and the
+checkpoint-limit oracle cp_limit_ok must accept the limits of every shiftable middle segment (a tree without H1b: relations
+only where H1's SEG record determines them, rel=partial, no pass records);
 V: the verified region checker nudge_region_ok on every dumped region and the verified scene checker scene_ok on the real
 route() / displayRoute() of every connector."""
 import os, re, json, collections
@@ -122,6 +126,8 @@ def classify_scene(sc, r, sv):
                 why.append('overlap_created_by_other_dimension')
             elif L.sandwiched(r['regions'], a, b):
                 why.append('movable_between_immovable_same_position')
+            elif L.order_against_limits(r['regions'], a, b):
+                why.append('order_contradicts_channel_limits')
             else:
                 why.append(None)
         if not why or None in why:
@@ -154,9 +160,14 @@ def run(tier):
         print('C10: hook H1 missing in %s/cola/libavoid/orthogonal.cpp (tools/hooks/H1.patch not applied): machinery error, '
               'no verdict' % C.REPO, flush=True)
         return 2
+    has_b = L.hook_b_present()
+    if not has_b:
+        print('C10: hook H1b (tools/hooks/H1b.patch) is not in %s: relations compared only where hook H1 determines them '
+              '(rel=partial), no region-collection / checkpoint-limit correspondence' % C.REPO, flush=True)
     info = C.prove(res, PID)
     res.assumptions = ['the VPSC solver is a parameter of the region model; its contract (unflagged constraints hold to 1e-10, flags reported) is property C01',
-                       'region grouping, linesort / PtOrderMap ordering and buildOrthogonalChannelInfo limits are inputs of the model (dumped by hook H1), not modelled',
+                       'linesort / PtOrderMap ordering, the shared-path set and buildOrthogonalChannelInfo limits are inputs of the model (dumped by hook H1), not modelled; '
+                       'the relations overlapsWith / shouldAlignWith / canAlignWith and the region collection ARE modelled and compared exactly (hooks H1 / H1b)',
                        'exact-rational model of binary64 on small dyadic inputs']
     exe = C.build_harness('c10_nudge', ['libavoid'], FLAVOR)
     drv = C.ocaml_build('c10', 'C10.v', 'c10_driver.ml', 'c10_model.ml')
@@ -165,6 +176,7 @@ def run(tier):
     scenes = corpus() + [L.gen_scene(rng.fork(), i) for i in range(n)]
     results = run_scenes(exe, drv, scenes)
     st = collections.Counter()
+    st['hook_H1b'] = int(has_b)
     errors, corr_diffs, reported = [], [], 0
     samples = []
     for x in results:
@@ -268,7 +280,10 @@ def run(tier):
                     'rule': 'one evaluation = one nudging region (one VPSC problem) of the real library, dumped by hook H1 and replayed on the '
                             'extracted model; scenes from SplitMix64(seed): 1-5 lattice rectangles, 2-5 orthogonal connectors with clustered '
                             'endpoints (free points, pins), random nudging distance, all 32 combinations of the five nudging options, '
-                            'checkpoints in three families; non-trivial = regions needing more than one solve, ending with a reduced '
+                            'checkpoints in three families; family 13/15: 2-3 collinear checkpoints inside one straight segment next to a '
+                            'shiftable segment in a channel (with / without the unifying step); family 14: an end segment lying exactly on '
+                            'a rectangle edge along which another connector\'s middle segment runs, all id / creation orders; directed corpus '
+                            'first (corpus/c10_scenes.json); non-trivial = regions needing more than one solve, ending with a reduced '
                             'separation, or ending unsatisfied',
                     'exhaustive': False, 'samples': samples, 'traces_validated_against_impl': st['trace_ok'],
                     'histogram': dict(st), 'machinery_errors': errors[:5]})
@@ -313,17 +328,22 @@ META = {
                 'is the generated one or a reduced value between the final sepDist and the base distance, final sepDist = base or > 1e-4, every '
                 'non-free variable within 1e-4 of its desired position); nudge_channel_post + written_within_limits (limits to 1e-4+1e-10 for '
                 'solver positions, exactly for written positions, fixed segments not written); nudge_unsatisfied_noop; nudge_no_new_segments; '
-                'C10_model (non-exempt overlapping pair ends >= final sepDist apart unless the solver flagged its constraint); soundness of the '
-                'region checker and of the scene checker; and a refutation: `satisfied` does not imply the constraints because the code never '
+                'C10_model (non-exempt overlapping pair ends >= final sepDist apart unless the solver flagged its constraint); the modelled '
+                'relations are symmetric (overlaps_sym, can_align_sym, should_align_sym) and overlaps_with means "the shift ranges share a '
+                'point" for properly overlapping extents; the modelled region collection is total, a permutation of the segment list, and '
+                'separates regions in both operand orders (seg_groups_separated); cp_limit_keeps (limits accepted by the checkpoint oracle '
+                'keep the checkpoint on the adjoining segment); soundness of the region checker and of the scene checker; and a refutation: `satisfied` does not imply the constraints because the code never '
                 'reads Constraint::unsatisfiable. PARTIAL: the solver is a hypothesis (C01), region grouping / ordering / channel limits are '
                 'inputs, whole scenes are only checked (verified checker), not proved.',
         'design_ref': 'DESIGN.md 5.10'},
-    'level_note': 'Trusted: Coq kernel; the hand-written model Avoid/NudgeModel.v tied to the code by hook H1 (guarded dump in orthogonal.cpp) and an '
-                  'exact correspondence on every run (generated vs/cs/gapcs/potential constraints, per-iteration satisfied / ranges / sepDist / '
-                  'rewritten gaps on the real solver results, final positions with the VPSC model of C01 to 1e-9); extraction and OCaml/C++/Python '
+    'level_note': 'Trusted: Coq kernel; the hand-written models Avoid/NudgeModel.v + Avoid/NudgeRelModel.v tied to the code by hooks H1 / H1b (guarded dump in '
+                  'orthogonal.cpp) and an exact correspondence on every run (generated vs/cs/gapcs/potential constraints, per-iteration satisfied / ranges / '
+                  'sepDist / rewritten gaps on the real solver results, final positions with the VPSC model of C01 to 1e-9, the three segment relations of '
+                  'every REL record, the partition of every pass\'s segment list into regions); extraction and OCaml/C++/Python '
                   'drivers; exact-rational model of binary64 (weights 0.00001, 0.001 and the 0.0001 tolerance are the exact binary64 values). '
-                  'Modelled not verified: VPSC solver (Section hypothesis = property C01), overlapsWith / shouldAlignWith / canAlignWith / shared-path '
-                  'set (taken as dumped data), linesort / PtOrderMap, buildOrthogonalChannelInfo. The scene-level statement (no movable overlap '
+                  'Modelled not verified: VPSC solver (Section hypothesis = property C01). Inputs (dumped data): shared-path '
+                  'set, linesort / PtOrderMap order (and its mergeWith under nudgeOrthogonalSegmentsConnectedToShapes), buildOrthogonalChannelInfo; the checkpoint '
+                  'limits of buildOrthogonalNudgingSegments are checked by an oracle (cp_limit_ok), not modelled. The scene-level statement (no movable overlap '
                   'in a wide-enough channel, ends / checkpoints / segment count / orthogonality / obstacle-freeness kept) is decided by a verified '
                   'checker on real outputs, i.e. validation. Known findings (KNOWN_FINDINGS.txt) are classified by predicates on the failing case.',
     'technique': 'Coq proof over a hand-written region model + hook-based exact correspondence + verified region/scene checkers on real outputs',
